@@ -85,7 +85,7 @@ def solve_equiv(build, timeout_ms, ladder=({}, {'abstract_order': True})):
                 nq += 1
                 total += res['ms']
                 if res['verdict'] == 'sat':
-                    if kw:   # a model of an abstraction is not a counterexample
+                    if 'abstract_order' in kw:   # a model of an abstraction is not a counterexample
                         continue
                     res['ms'] = total
                     res['queries'] = nq
@@ -165,22 +165,118 @@ def _work(item):
                  'detail': 'exception: %s\n%s' % (e, traceback.format_exc()[-1500:])}]
 
 
+HARD_TIMEOUT = int(os.environ.get('VERIF_HARD_TIMEOUT', '120'))     # seconds per item before the worker is killed
+WORKER_MEM_MB = int(os.environ.get('VERIF_WORKER_MEM_MB', '3500'))
+
+
+def _worker_main(check_module_name, conn):
+    try:
+        import resource
+        lim = WORKER_MEM_MB * 1024 * 1024 * 2
+        resource.setrlimit(resource.RLIMIT_AS, (lim, lim))
+    except Exception:
+        pass
+    try:
+        z3.set_param('memory_max_size', WORKER_MEM_MB)
+    except Exception:
+        pass
+    _init(check_module_name)
+    while True:
+        try:
+            msg = conn.recv()
+        except EOFError:
+            return
+        if msg is None:
+            return
+        idx, item = msg
+        try:
+            res = _work(item)
+        except MemoryError:
+            res = [{'key': repr(item)[:200], 'verdict': 'unknown', 'detail': 'out of memory in worker',
+                    'family': item.get('family'), 'input': item.get('program') or repr(item)[:200],
+                    'twin': item.get('twin', False)}]
+        conn.send((idx, res))
+
+
 def run_pool(check_module_name, items, nworkers=None):
+    """Own worker pool: one item at a time per worker, a hard wall-clock limit per item (the worker is killed and
+    the item recorded as `unknown`), and an address-space limit per worker - a solver that ignores its timeout or
+    explodes in memory can neither hang nor take down the run."""
+    from multiprocessing.connection import wait
     nworkers = nworkers or NWORKERS
     if not items:
         return []
-    if nworkers <= 1 or len(items) < 4:
-        _init(check_module_name)
-        out = []
-        for it in items:
-            out.extend(_work(it))
-        return out
+    nworkers = min(nworkers, len(items))
     ctx = mp.get_context('fork')
-    chunk = max(1, min(64, len(items) // (nworkers * 8) or 1))
-    with ctx.Pool(nworkers, initializer=_init, initargs=(check_module_name,)) as pool:
-        out = []
-        for res in pool.imap_unordered(_work, items, chunksize=chunk):
-            out.extend(res)
+    workers = []
+
+    def spawn():
+        parent, child = ctx.Pipe()
+        p = ctx.Process(target=_worker_main, args=(check_module_name, child), daemon=True)
+        p.start()
+        child.close()
+        return {'proc': p, 'conn': parent, 'item': None, 'start': None}
+
+    def lost(w, why):
+        idx, item = w['item']
+        return [{'key': 'lost:%d' % idx, 'verdict': 'unknown', 'detail': why, 'family': item.get('family'),
+                 'input': item.get('program') or item.get('text') or repr(item)[:300], 'twin': item.get('twin', False),
+                 'ms': int((time.time() - w['start']) * 1000)}]
+
+    for _ in range(nworkers):
+        workers.append(spawn())
+    out = []
+    nxt = 0
+    pending = 0
+    total = len(items)
+    while nxt < total or pending:
+        for w in workers:
+            if w['item'] is None and nxt < total:
+                w['item'] = (nxt, items[nxt])
+                w['start'] = time.time()
+                w['conn'].send(w['item'])
+                nxt += 1
+                pending += 1
+        busy = [w for w in workers if w['item'] is not None]
+        ready = wait([w['conn'] for w in busy], timeout=1.0)
+        now = time.time()
+        for i, w in enumerate(workers):
+            if w['item'] is None:
+                continue
+            if w['conn'] in ready:
+                try:
+                    idx, res = w['conn'].recv()
+                    out.extend(res)
+                    w['item'] = None
+                    pending -= 1
+                    continue
+                except (EOFError, OSError):
+                    out.extend(lost(w, 'worker died (memory limit?)'))
+                    pending -= 1
+                    try:
+                        w['proc'].kill()
+                    except Exception:
+                        pass
+                    workers[i] = spawn()
+                    continue
+            if now - w['start'] > HARD_TIMEOUT:
+                out.extend(lost(w, 'hard timeout after %ds: worker killed' % HARD_TIMEOUT))
+                pending -= 1
+                try:
+                    w['proc'].kill()
+                    w['proc'].join(timeout=5)
+                except Exception:
+                    pass
+                workers[i] = spawn()
+    for w in workers:
+        try:
+            w['conn'].send(None)
+        except Exception:
+            pass
+    for w in workers:
+        w['proc'].join(timeout=2)
+        if w['proc'].is_alive():
+            w['proc'].kill()
     return out
 
 
